@@ -79,6 +79,18 @@ CLAIMS["C19"] = dict(
               "file under a directory is found; --recurse semantics) because os.walk is opaque; Windows path-separator normalisation; that glob() "
               "itself matches the documented pattern language.")
 
+CLAIMS["C17"] = dict(
+    text="Proof of the precedence chain: __handle_command_line_settings returns False if '*' or any identifier of the rule is in the disable "
+         "set, else True if any identifier is in the enable set, else None (disable wins; id and every alias are equivalent) - loop invariants; "
+         "__find_configuration_for_plugin returns the section of the first identifier that has any key; __determine_if_plugin_enabled = command "
+         "line, else the section's boolean 'enabled', else the rule's default; configuration layers are loaded in the order pyproject < default "
+         "file < --config < --set, each with clear_property_map=False (ghost trace of loader calls, all 153 paths); return-code scheme: argument, "
+         "then validated configuration value, then default; for all 46 rules the identifiers, every configuration item's name, type and "
+         "default, and the default enabled state equal the documented tables, and every read goes through a typed getter.",
+    note=TB + "Assumed: application_properties (later load overwrites equal keys; typed getters fall back to the default unless strict); argparse. "
+              "Documentation tables are compared through the committed transcription specs/rule_config.json (5 corrections with reasons). "
+              "NOT covered: validators' predicates against the prose, YAML/TOML parsing.")
+
 NA = {
     "C01": "totality of the ~60 kLoC parser is a postcondition of TokenizedMarkdown.transform; no contract chain within reach without a Python deductive verifier (DESIGN.md 7)",
     "C02": "round-trip of parser + 5 kLoC regenerator needs the token stream specified as an encoding of the document (C03+C04+C05 in full) first (DESIGN.md 7)",
